@@ -29,6 +29,29 @@ def equ_envs():
                   if type(e) is defs.EquEnv and not e.args and not e.remove)
 
 
+# equation environments of LaTeX and amsmath, by their documented names: with
+# all packages loaded each of them is an equation environment for the filter
+LATEX_EQU = ['equation', 'equation*', 'displaymath', 'eqnarray', 'eqnarray*', 'align', 'align*',
+             'gather', 'gather*', 'multline', 'multline*', 'flalign', 'flalign*']
+
+
+def known_names_stream(res):
+    for env in LATEX_EQU:
+        tex = 'Before we see\n\\begin{%s}\n  a = b.\n\\end{%s}\nAfter that.\n' % (env, env)
+        c = parsecase.T2T(tex, lang='en', pack='*', files={})
+        im = parsecase.run_t2t(c)
+        res.count('latex-names', c.key())
+        if im[0] != 'OK':
+            res.failures.append(('c11-name:' + env, c.json(), 'no result: %r' % (im[:2],)))
+            continue
+        txt = im[1][1]
+        phs = settings('en').math_repl_display
+        if 'a = b' in txt or not any(ph in txt for ph in phs):
+            res.failures.append(('c11-name:' + env, c.json(),
+                                 'environment %s of LaTeX/amsmath is not rendered as an '
+                                 'equation: %r' % (env, txt)))
+
+
 def settings(lang):
     lc = parameters.Parameters(lang).lang_context
     return lc
@@ -141,6 +164,7 @@ def _run_own(tier, seed, build, res):
                      sample_rule=lambda c, im: len(meta[(c.latex, c.lang) if (c.latex, c.lang) in meta else (c.latex, c.lang, c.seqs)][0]) > 1)
     switch_stream(rng, res)
     text_parts_stream(rng, res)
+    known_names_stream(res)
 
 
 def text_parts_stream(rng, res):
